@@ -138,6 +138,10 @@ def _string_case(ch):
                 "macro m a a { g a }\n",
                 "register q[2]\nmacro m { m }\nm\n",
                 "register q[2]\nmacro m a { m a }\nm q[0]\n",
+                "let n 2.5\nregister q[n]\ng q[0]\n",
+                "let n 2.5\nregister q[n]\nmap s q[1]\nmap w q\ng w[0] s\n",
+                "let n -1\nregister q[n]\ng q[0]\n",
+                "let k 0.5\nregister q[2]\nmap a q[k:2]\ng a[0]\n",
                 "register q[2]\nmacro a { b }\nmacro b { a }\na\n",
                 "register q[2]\nmacro m a { g a }\nloop 2 { m q[1] }\nm 1.5\n",
                 "register q[1]\nbranch { '0': { g q[0] } }\n",
